@@ -10,11 +10,15 @@ import (
 	"encoding/json"
 	"fmt"
 	"io"
+	"log"
+	"net/http"
+	"net/http/httptest"
 	"sort"
 	"strconv"
 	"strings"
 	"time"
 
+	"github.com/EliCDavis/polyform/generator"
 	"github.com/EliCDavis/polyform/generator/artifact"
 	"github.com/EliCDavis/polyform/generator/artifact/basics"
 	"github.com/EliCDavis/polyform/generator/graph"
@@ -40,6 +44,35 @@ func (Scenario) Prop() string    { return "C13" }
 func (Scenario) Name() string    { return "graph-clients" }
 func (Scenario) Isolated() bool  { return true }
 func (Scenario) NeedsRace() bool { return true }
+
+// ServerScenario runs the same generated graphs, client plans and oracles,
+// but every client call is a request served by the edit server's own
+// handlers (generator/app_server_parameter.go, AppServer.ProducerEndpoint)
+// around the instance: POST and GET /parameter/value/<id>, GET
+// /producer/value/<name>, with an in-memory request and response recorder
+// (no socket). What a client observes is what the response carries: the
+// status code of an update, the body of a read, status and body of a
+// producer request (the handler recovers from a panicking node itself and
+// writes the artifact out through a buffered writer after Artifact returned).
+type ServerScenario struct{}
+
+func (ServerScenario) Prop() string    { return "C13" }
+func (ServerScenario) Name() string    { return "server-clients" }
+func (ServerScenario) Isolated() bool  { return true }
+func (ServerScenario) NeedsRace() bool { return true }
+func (ServerScenario) Run(c choice.Chooser, opt sim.Options) sim.Result {
+	return run(c, opt, true)
+}
+
+// writeYield: in the server scenario harness artifacts yield inside Write,
+// because the moment between Artifact returning and the artifact being
+// written out lies inside the handler, where the client loop cannot place a
+// scheduling point.
+func writeYield(on bool) {
+	if on {
+		detsched.Yield("client:write", 0)
+	}
+}
 
 // ------------------------------------------------------------ harness nodes
 
@@ -125,26 +158,29 @@ func pattern(serial int) []vector3.Float64 {
 // arrays of its mesh: what it writes out later must still be what it was
 // built from.
 type sliceArtifact struct {
-	text string
-	idx  int
-	pts  []vector3.Float64
+	text  string
+	idx   int
+	pts   []vector3.Float64
+	yield bool
 }
 
 func (t sliceArtifact) Write(w io.Writer) error {
+	writeYield(t.yield)
 	_, err := w.Write([]byte(t.text + "+" + renderArr(t.idx, t.pts)))
 	return err
 }
 func (sliceArtifact) Mime() string { return "text/plain" }
 
 type ProdSliceData struct {
-	In  nodes.NodeOutput[string]
-	Pts nodes.NodeOutput[[]vector3.Float64]
-	Idx int
+	In    nodes.NodeOutput[string]
+	Pts   nodes.NodeOutput[[]vector3.Float64]
+	Idx   int
+	Yield bool
 }
 
 func (d ProdSliceData) Process() (artifact.Artifact, error) {
 	detsched.Yield("proc:produce", 1)
-	return sliceArtifact{text: d.In.Value(), idx: d.Idx, pts: d.Pts.Value()}, nil
+	return sliceArtifact{text: d.In.Value(), idx: d.Idx, pts: d.Pts.Value(), yield: d.Yield}, nil
 }
 
 // FileLeafData turns a File parameter (raw bytes) into a readable token.
@@ -159,18 +195,26 @@ func (d FileLeafData) Process() (string, error) {
 
 func fileBytes(serial int) []byte { return []byte(fmt.Sprintf("%08d", serial)) }
 
-type textArtifact struct{ data string }
+type textArtifact struct {
+	data  string
+	yield bool
+}
 
-func (t textArtifact) Write(w io.Writer) error { _, err := w.Write([]byte(t.data)); return err }
-func (textArtifact) Mime() string              { return "text/plain" }
+func (t textArtifact) Write(w io.Writer) error {
+	writeYield(t.yield)
+	_, err := w.Write([]byte(t.data))
+	return err
+}
+func (textArtifact) Mime() string { return "text/plain" }
 
 type ProdData struct {
-	In nodes.NodeOutput[string]
+	In    nodes.NodeOutput[string]
+	Yield bool
 }
 
 func (d ProdData) Process() (artifact.Artifact, error) {
 	detsched.Yield("proc:produce", 0)
-	return textArtifact{data: d.In.Value()}, nil
+	return textArtifact{data: d.In.Value(), yield: d.Yield}, nil
 }
 
 // ------------------------------------------------------------ graph spec + model
@@ -314,9 +358,10 @@ type built struct {
 	inst     *graph.Instance
 	paramIDs []string
 	prodName []string
+	leafIDs  []string // ids of the (non-parameter) nodes that read the parameters
 }
 
-func build(g graphSpec) built {
+func build(g graphSpec, server bool) built {
 	var b built
 	params := make([]nodes.Node, g.Params)
 	arrParams := make([]*parameter.Value[[]vector3.Float64], g.Params)
@@ -365,16 +410,17 @@ func build(g graphSpec) built {
 			// hands out must stay valid after the lock is released
 			b.inst.AddProducer(name, basics.NewTextNode(ns[ni].Out()))
 		} else if sp := g.SliceProducer[k]; sp >= 0 {
-			prod := &nodes.Struct[artifact.Artifact, ProdSliceData]{Data: ProdSliceData{In: ns[ni].Out(), Pts: arrParams[sp].Out(), Idx: sp}}
+			prod := &nodes.Struct[artifact.Artifact, ProdSliceData]{Data: ProdSliceData{In: ns[ni].Out(), Pts: arrParams[sp].Out(), Idx: sp, Yield: server}}
 			b.inst.AddProducer(name, prod.Out())
 		} else {
-			prod := &nodes.Struct[artifact.Artifact, ProdData]{Data: ProdData{In: ns[ni].Out()}}
+			prod := &nodes.Struct[artifact.Artifact, ProdData]{Data: ProdData{In: ns[ni].Out(), Yield: server}}
 			b.inst.AddProducer(name, prod.Out())
 		}
 		b.prodName = append(b.prodName, name)
 	}
 	for p := range params {
 		b.paramIDs = append(b.paramIDs, b.inst.NodeId(params[p])) // "" when no producer depends on it
+		b.leafIDs = append(b.leafIDs, b.inst.NodeId(leaves[p].Node()))
 	}
 	return b
 }
@@ -386,6 +432,14 @@ const (
 	opBadUpdate
 	opRead
 	opArtifact
+	// opBadTarget: a call that names a node that does not exist, or one that
+	// is not a parameter (Param: 0/1 update/read of an unknown id, 2/3
+	// update/read of a node that is not a parameter, 4 an unknown producer).
+	// The call fails - on the pinned tree by panicking, which a client (like
+	// the server's handlers) recovers from. It changes nothing, and nothing
+	// is demanded of how it fails; what is judged is that every other call
+	// still completes and is served correctly afterwards.
+	opBadTarget
 )
 
 type op struct {
@@ -403,6 +457,8 @@ func (o op) String() string {
 		return fmt.Sprintf("UpdateMalformed(P%d)", o.Param)
 	case opRead:
 		return fmt.Sprintf("Read(P%d)", o.Param)
+	case opBadTarget:
+		return [...]string{"Update(unknown id)", "Read(unknown id)", "Update(node that is no parameter)", "Read(node that is no parameter)", "Artifact(unknown producer)"}[o.Param]
 	}
 	return fmt.Sprintf("Artifact(out%d)", o.Prod)
 }
@@ -438,6 +494,8 @@ func model(g *graphSpec) porcupine.Model {
 				return true, st
 			case opBadUpdate:
 				return r.Err, st
+			case opBadTarget:
+				return true, st
 			case opRead:
 				if g.ParamKind[o.Param] == 1 {
 					want, _ := json.Marshal(pattern(st[o.Param]))
@@ -473,9 +531,25 @@ func (g graphSpec) paramsOf(node int, seen map[int]bool) {
 }
 
 func (Scenario) Run(c choice.Chooser, opt sim.Options) sim.Result {
+	return run(c, opt, false)
+}
+
+func run(c choice.Chooser, opt sim.Options, server bool) sim.Result {
 	res := sim.Result{Evals: 1}
 	g := genGraph(c)
-	b := build(g)
+	b := build(g, server)
+	var paramH, prodH http.Handler
+	if server {
+		// the handlers log failed requests; a discarded logger takes no lock
+		log.SetOutput(io.Discard)
+		paramH, prodH = generator.VerifRequestHandlers(b.inst)
+		res.Count("front-end:http-handlers", 1)
+	}
+	serve := func(h http.Handler, method, url string, body []byte) *httptest.ResponseRecorder {
+		rec := httptest.NewRecorder()
+		h.ServeHTTP(rec, httptest.NewRequest(method, url, bytes.NewReader(body)))
+		return rec
+	}
 
 	// only parameters some producer depends on are part of the instance
 	reach := map[int]bool{}
@@ -515,7 +589,7 @@ func (Scenario) Run(c choice.Chooser, opt sim.Options) sim.Result {
 		n := 2 + c.Intn("w:ops", maxOps)
 		for k := 0; k < n && total < maxTotal; k++ {
 			var o op
-			switch choice.Pick(c, "op:kind", []int{4, 1, 2, 5}) {
+			switch choice.Pick(c, "op:kind", []int{8, 2, 4, 10, 1}) {
 			case 0:
 				o = op{Kind: opUpdate, Param: usable[c.Intn("op:param", len(usable))], Value: next}
 				if c.Intn("op:poison", 7) == 6 {
@@ -531,6 +605,8 @@ func (Scenario) Run(c choice.Chooser, opt sim.Options) sim.Result {
 				}
 			case 2:
 				o = op{Kind: opRead, Param: usable[c.Intn("op:param", len(usable))]}
+			case 4:
+				o = op{Kind: opBadTarget, Param: c.Intn("op:bad-target", 5)}
 			default:
 				o = op{Kind: opArtifact, Prod: c.Intn("op:prod", len(g.Producers))}
 			}
@@ -580,19 +656,74 @@ func (Scenario) Run(c choice.Chooser, opt sim.Options) sim.Result {
 				}
 				detsched.Yield("client:invoke", int64(k))
 				switch o.Kind {
-				case opUpdate:
-					_, err := b.inst.UpdateParameter(b.paramIDs[o.Param], msg)
-					r.Err = err != nil
+				case opUpdate, opBadUpdate:
+					if server {
+						rec := serve(paramH, http.MethodPost, "http://sim/parameter/value/"+b.paramIDs[o.Param], msg)
+						r.Err = rec.Code != http.StatusOK
+					} else {
+						_, err := b.inst.UpdateParameter(b.paramIDs[o.Param], msg)
+						r.Err = err != nil
+					}
 					detsched.Yield("client:return", int64(k))
-				case opBadUpdate:
-					_, err := b.inst.UpdateParameter(b.paramIDs[o.Param], msg)
-					r.Err = err != nil
+				case opBadTarget:
+					id := "Node-no-such"
+					if o.Param == 2 || o.Param == 3 {
+						for _, l := range b.leafIDs {
+							if l != "" {
+								id = l
+							}
+						}
+					}
+					failed := false
+					func() {
+						defer func() {
+							if recover() != nil {
+								failed = true
+							}
+						}()
+						switch {
+						case server && o.Param == 4:
+							failed = serve(prodH, http.MethodGet, "http://sim/producer/value/no-such-file", nil).Code != http.StatusOK
+						case server && o.Param%2 == 0:
+							failed = serve(paramH, http.MethodPost, "http://sim/parameter/value/"+id, []byte("1")).Code != http.StatusOK
+						case server:
+							failed = serve(paramH, http.MethodGet, "http://sim/parameter/value/"+id, nil).Code != http.StatusOK
+						case o.Param == 4:
+							b.inst.Artifact("no-such-file")
+						case o.Param%2 == 0:
+							_, err := b.inst.UpdateParameter(id, []byte("1"))
+							failed = err != nil
+						default:
+							b.inst.ParameterData(id)
+						}
+					}()
+					r.Err = failed
 					detsched.Yield("client:return", int64(k))
 				case opRead:
-					d := b.inst.ParameterData(b.paramIDs[o.Param])
+					var d []byte
+					if server {
+						rec := serve(paramH, http.MethodGet, "http://sim/parameter/value/"+b.paramIDs[o.Param], nil)
+						d = rec.Body.Bytes()
+						if rec.Code != http.StatusOK {
+							d = []byte(fmt.Sprintf("HTTP %d: %s", rec.Code, d))
+						}
+					} else {
+						d = b.inst.ParameterData(b.paramIDs[o.Param])
+					}
 					detsched.Yield("client:return", int64(k))
 					r.Val = string(d)
 				default:
+					if server {
+						rec := serve(prodH, http.MethodGet, "http://sim/producer/value/"+b.prodName[o.Prod], nil)
+						detsched.Yield("client:return", int64(k))
+						if rec.Code != http.StatusOK {
+							// the handler recovered from a failed generation
+							r.Val = "PANIC"
+						} else {
+							r.Val = rec.Body.String()
+						}
+						break
+					}
 					var a artifact.Artifact
 					panicked := false
 					func() {
@@ -734,6 +865,8 @@ func (Scenario) Run(c choice.Chooser, opt sim.Options) sim.Result {
 			switch {
 			case o.Kind == opBadUpdate:
 				res.Count("fault:malformed-update", 1)
+			case o.Kind == opBadTarget:
+				res.Count("fault:call-names-unknown-or-non-parameter-node", 1)
 			case o.Kind == opUpdate && o.Value >= poison && g.ParamKind[o.Param] == 0:
 				res.Count("fault:poisoned-value(node-panics)", 1)
 			}
